@@ -50,6 +50,9 @@ def run(ctx):
         ctx.guard(c12.walker_rules, ctx, cfg, fs, 'R.registry', {'collect_shorts': c12.WALKERS['collect_shorts']})
         ctx.guard(c08.keep_only, ctx, lambda: c02.registry(ctx, cfg, fs), lambda o: True, 'R.registry')
         ctx.guard(c08.keep_only, ctx, lambda: c02.name_search(ctx, cfg, fs), lambda o: o.rule == 'R.registry', 'R.registry')
+        # both alternatives are always evaluated on forks and the winner is picked by position (shared with C07): an early win of the first
+        # alternative would make the outcome depend on which shared item comes first
+        ctx.guard(c08.keep_only, ctx, lambda: c07.fork(ctx, cfg, fs), lambda o: 'ParseOrElse' in o.key, 'S.search')
         import c06
         ctx.guard(c06.loop_conditions, ctx, cfg, fs, 'L.repetition')
         ctx.guard(c08.keep_only, ctx, lambda: c09.tokenizer(ctx, cfg, fs), lambda o: 'marker-' in o.key, 'T.separator')
